@@ -1120,8 +1120,11 @@ class QOperation:
         if on_para_eq_constraint is None:
             on_para_eq_constraint = self._on_para_eq_constraint
 
+        qobj = self.copy()
+        qobj.set_mode_proj_order(mode_proj_order)
+
         def _func_proj(var: np.ndarray) -> np.ndarray:
-            new_var = self.calc_proj_physical_with_var(
+            new_var = qobj.calc_proj_physical_with_var(
                 var,
                 on_para_eq_constraint=on_para_eq_constraint,
                 max_iteration=max_iteration,
